@@ -64,7 +64,10 @@ let dispatch f args = match f, args with
   | "spec_push", [v] -> show_bytes (core_push (arg_bytes v))
   | "spec_script_code_base", [s; sigs] -> show_bytes (core_script_code_base (arg_bytes s) (arg_list arg_bytes sigs))
   | "spec_ser_script_code", [s] -> show_bytes (ser_script_code (arg_bytes s))
-  | "spec_legacy", [v; ins; outs; lock; uns; s; idx; ht] ->
+  | "spec_legacy", [v; ins; outs; lock; uns; s; idx; ht] ->      (* original formulation: all scripts *)
+    let t = to_core (parse_tx v ins outs lock uns) in
+    over_hts ht (fun h -> show_core (core_signature_hash_old (arg_bytes s) t (arg_nat idx) h))
+  | "spec_legacy_streaming", [v; ins; outs; lock; uns; s; idx; ht] ->   (* today's SerializeScriptCode *)
     let t = to_core (parse_tx v ins outs lock uns) in
     over_hts ht (fun h -> show_core (core_signature_hash_legacy (arg_bytes s) t (arg_nat idx) h))
   | "spec_bip143", [hf; v; ins; outs; lock; uns; s; idx; amount; ht] ->
@@ -74,6 +77,5 @@ let dispatch f args = match f, args with
     let t = to_core (parse_tx v ins outs lock uns) in
     over_hts ht (fun h -> show_option show_bytes (forkid_preimage (hash_of hf) (arg_n fk) (arg_bytes s) t (arg_nat idx) (arg_n amount) h))
   | "plain_push", [sg] -> show_outcome show_bytes (plain_push (arg_bytes sg))
-  | "excl_rewalk", [sub; s] -> show_bool (rewalk_excluded (arg_bytes sub) (arg_bytes s))
   | _ -> failwith ("unknown function " ^ f)
 let () = main_loop dispatch
